@@ -25,6 +25,9 @@ pub struct Controller {
     pub trace: Vec<(String, String)>,
     pub auto_release_all: bool,
     pub salsa_points: u64,
+    /// task threads that have already been stopped once inside their query (first cancellation
+    /// checkpoint after task:start): the one scheduling point "the task is in the middle of its analysis"
+    in_query_seen: std::collections::BTreeSet<u64>,
 }
 
 impl Controller {
@@ -32,7 +35,7 @@ impl Controller {
         let _ = std::fs::remove_file(&path);
         let listener = UnixListener::bind(&path)?;
         listener.set_nonblocking(true)?;
-        Ok(Controller { path, listener, conns: vec![], names: BTreeMap::new(), parked: BTreeMap::new(), trace: vec![], auto_release_all: false, salsa_points: 0 })
+        Ok(Controller { path, listener, conns: vec![], names: BTreeMap::new(), parked: BTreeMap::new(), trace: vec![], auto_release_all: false, salsa_points: 0, in_query_seen: Default::default() })
     }
 
     fn go(&mut self, conn: usize) {
@@ -42,12 +45,20 @@ impl Controller {
     }
 
     fn on_point(&mut self, conn: usize, tid: u64, name: String) {
+        let mut name = name;
         if name.starts_with("salsa:") {
             self.salsa_points += 1;
-            self.go(conn);
-            return;
+            let is_task = self.names.get(&tid).map_or(false, |n| n.starts_with('T'));
+            if name == "salsa:check" && is_task && !self.auto_release_all && self.in_query_seen.insert(tid) {
+                // the first checkpoint of this task's query is a scheduling point of its own
+                name = "task:in_query".to_string();
+            } else {
+                self.go(conn);
+                return;
+            }
         }
         if let Some(n) = name.strip_prefix("task:start:") {
+            self.in_query_seen.remove(&tid);
             self.names.insert(tid, format!("T{n}"));
         } else if name.starts_with("did_change:") || name.starts_with("apply:") {
             self.names.insert(tid, "M".into());
